@@ -8,6 +8,12 @@ use std::collections::{BTreeMap, BTreeSet};
 
 pub struct C11;
 
+const HAND: [&str; 3] = [
+    "@group(0u) @binding(0u) var<uniform> vs_camera: mat4x4<f32>;\n@group(0u) @binding(0u) var<uniform> fs_camera: mat4x4<f32>;\n@vertex\nfn vs_main() -> @builtin(position) vec4<f32> { return vs_camera[0]; }\n@fragment\nfn fs_main() -> @location(0) vec4<f32> { return fs_camera[1]; }\n",
+    "@group(0u) @binding(0u) var<uniform> globals: vec4<f32>;\n@group(1u) @binding(2u) var<storage, read> cs_items: array<f32>;\n@group(1u) @binding(2u) var<storage, read> fs_items: array<f32>;\nfn sum() -> f32 { return cs_items[0]; }\n@compute @workgroup_size(1)\nfn cs_main() { let x = sum() + globals.x; }\n@fragment\nfn fs_main() -> @location(0) vec4<f32> { return vec4<f32>(fs_items[1]) + globals; }\n",
+    "@group(0u) @binding(1u) var vs_tex: texture_2d<f32>;\n@group(0u) @binding(0u) var samp: sampler;\n@group(0u) @binding(1u) var fs_tex: texture_2d<f32>;\n@vertex\nfn vs_main() -> @builtin(position) vec4<f32> { return textureLoad(vs_tex, vec2<i32>(0), 0); }\n@fragment\nfn fs_main() -> @location(0) vec4<f32> { return textureSample(fs_tex, samp, vec2<f32>(0.0)); }\n",
+];
+
 #[derive(Debug, Clone)]
 pub struct Decl {
     pub group: u32,
@@ -271,6 +277,13 @@ impl Property for C11 {
                     p.include = None;
                 }
                 out.push(Case::new(format!("{name}/rts-struct@{at}/opts={mode}/validate={v}"), wgsl, p));
+            }
+        }
+        // hand-written shapes (round 8 seeds): a slot declared twice with the SAME type, each declaration statically used by a
+        // different stage only (naga's validator checks collisions per entry point and accepts this; the property does not)
+        for (k, src) in HAND.iter().enumerate() {
+            for v in [false, true] {
+                out.push(Case::new(format!("hand{k}/validate={v}"), src.to_string(), Params::default().validated(v)));
             }
         }
         out
